@@ -67,13 +67,15 @@ func initSpecDirs() {
 	cdi.SetSpecValidator(schema.WithSchema(s))
 
 	if len(specDirs) > 0 {
-		cache, err := cdi.NewCache(
+		// the subcommands all use the default cache
+		err := cdi.Configure(
 			cdi.WithSpecDirs(specDirs...),
 		)
 		if err != nil {
 			fmt.Printf("failed to create CDI cache: %v\n", err)
 			os.Exit(1)
 		}
+		cache := cdi.GetDefaultCache()
 		if len(cache.GetErrors()) > 0 {
 			cdiPrintCacheErrors()
 			os.Exit(1)
